@@ -1478,6 +1478,9 @@ class MySQLCompiler(
             for key, value in on_duplicate.update.items()
         }
 
+        set_kw = dict(kw)
+        set_kw.update(use_schema=False, is_upsert_set=True)
+
         # traverses through all table columns to preserve table column order
         for column in (col for col in cols if col.key in on_duplicate_update):
             val = on_duplicate_update[column.key]
@@ -1509,9 +1512,7 @@ class MySQLCompiler(
                     return None
 
             val = visitors.replacement_traverse(val, {}, replace)
-            value_text = self.process(
-                val.self_group(), use_schema=False, is_upsert_set=True
-            )
+            value_text = self.process(val.self_group(), **set_kw)
 
             name_text = self.preparer.quote(column.name)
             clauses.append("%s = %s" % (name_text, value_text))
